@@ -1,5 +1,6 @@
 import corr_array
 import corr_transform
+import oracle_consumer
 import oracle_misc
 
 SPEC = {'statement': 'well_typed_trees: every variable of the documented trees holds leaves or (nested) lists of leaves - never a dict or a (value, attrs) pair - and every attribute is a scalar/str/list/tuple of those, for any number of lines; declared_shape: the loaded full image has exactly the declared n rows of m samples; real numpy dtypes re-read from the source tables', 'rule': 'oracle: dtype (isinstance np.dtype), shape, nbytes, repr() of every node/variable, python types of every attribute, declared vs loaded dtype/shape of random selections of the image (byte-order insensitive); distinct = distinct product seed', 'partial': "numpy's dtype inference for lists of python scalars is third-party (observed)", 'assumptions': []}
@@ -17,8 +18,12 @@ def oracle_c12(seed, tier):
     return oracle_misc.check_c12(seed, tier)
 
 
+def oracle_consumer_ops(seed, tier):
+    return oracle_consumer.check(seed, tier)
+
+
 def checks(tier):
-    return [corr_getitem, corr_transformers, oracle_c12]
+    return [corr_getitem, corr_transformers, oracle_c12, oracle_consumer_ops]
 
 
 def replay(payload):
